@@ -199,13 +199,36 @@ def theorems_in(vfile):
     return re.findall(r"^\s*(?:Theorem|Lemma|Corollary|Example)\s+([A-Za-z0-9_']+)", txt, flags=re.M)
 
 
-def forbidden_scan():
-    """no Admitted/admit/Axiom/Parameter/... anywhere in the development"""
+def coq_closure(relpath):
+    """the files of the development a .v file transitively depends on (From Verif Require ... lines), itself included"""
+    d = coq_dir()
+    index = {}
+    for p in glob.glob(os.path.join(d, "*/*.v")):
+        index.setdefault(os.path.basename(p)[:-2], p)
+    seen, todo = [], [os.path.join(d, relpath)]
+    while todo:
+        p = todo.pop()
+        if p in seen or not os.path.exists(p):
+            continue
+        seen.append(p)
+        txt = re.sub(r"\(\*.*?\*\)", "", open(p).read(), flags=re.S)
+        for m in re.finditer(r"(?:From\s+Verif\s+)?Require\s+(?:Import\s+|Export\s+)?([^.]*(?:\.[A-Za-z_][^.]*)*)\.\s", txt):
+            for name in m.group(1).split():
+                name = name.split(".")[-1]
+                if name in index:
+                    todo.append(index[name])
+    return seen
+
+
+def forbidden_scan(relpath=None):
+    """no Admitted/admit/Axiom/Parameter/... in the development: with relpath, in that file and everything of the
+    development it depends on (what its theorems rest on); without, in every file under coq/"""
     bad = []
     pat = re.compile(r"\b(Admitted|admit|Axiom|Axioms|Parameter|Parameters|Conjecture|Admit Obligations|"
                      r"Unset Guard Checking|Unset Positivity Checking|Unset Universe Checking|bypass_check|"
                      r"native_compute)\b")
-    for p in glob.glob(os.path.join(coq_dir(), "**/*.v"), recursive=True):
+    files = coq_closure(relpath) if relpath else glob.glob(os.path.join(coq_dir(), "**/*.v"), recursive=True)
+    for p in files:
         if os.path.basename(p).startswith(("tmp", "dbg", "scratch")):
             continue   # a worker's scratch file: not part of the development (never committed)
         txt = open(p).read()
